@@ -6,9 +6,11 @@ Trusted model (recorded in ctx.trusted when used):
   computed by CPython itself (exact IEEE semantics).  A symbolic arithmetic result with exact value e
   is a fresh real r constrained by facts that hold for round-to-nearest in binary64:
       |r - e| <= 2^-53 |e| + 2^-1075                       (relative bound; the absolute term covers underflow)
-      |e| <= 2^k  ==>  |r - e| <= 2^(k-54)   for k = -8..62  (half an ulp of the binade below 2^k)
-      |e| <= 2^52 ==>  floor(e) <= r <= ceil(e)            (integers of that size are representable, RN is monotone)
+      |e| <= 2^k  ==>  |r - e| <= 2^(k-54)                 (half an ulp of the binade below 2^k; instantiated for the
+                                                            binades just below a syntactically known bound of |e|,
+                                                            or for k = -8..62 if no bound is known)
       e >= 0 ==> r >= 0,  e <= 0 ==> r <= 0
+  and rounding is a function (equal exact values give equal results).
   Overflow is excluded by a checked side condition (|e| < 2^1000 must be provable, else the obligation is
   undecided).  NaN, infinities and the sign of zero are not modelled.  int -> float conversion is exact
   for |v| <= 2^53 (checked), rounded otherwise; int / int is the correctly rounded exact quotient;
@@ -38,7 +40,7 @@ from .ops import as_int, is_intlike, zi
 from .explore import Unsupported, PathInfeasible
 
 T_FLOAT = ("floats: binary64 modelled as reals; every symbolic arithmetic result r of exact value e satisfies |r-e| <= 2^-53|e| + 2^-1075, "
-           "|r-e| <= 2^(k-54) if |e| <= 2^k (k=-8..62), floor(e) <= r <= ceil(e) if |e| <= 2^52, sign preserved; overflow excluded by a "
+           "|r-e| <= 2^(k-54) if |e| <= 2^k, sign preserved, rounding is a function; overflow excluded by a "
            "checked side condition; NaN/inf/-0.0 not modelled; int->float exact up to 2^53 (checked); comparisons, floor, ceil, int() exact on the real value")
 T_DT = ("datetime: datetime/timedelta are exact integer microseconds (tzinfo None or timezone.utc only); float seconds -> microseconds as in "
         "CPython (integral part exact, fractional part * 10^6 in binary64, rounded to nearest, ties unspecified); timestamp()/total_seconds() "
@@ -152,7 +154,7 @@ def rnd(interp, e, bound=None):
         k0 = max(_bits_for(bound), -1021)
         # |e| <= 2^k0 always: half an ulp of the binade below 2^k0, unconditionally; a few finer binades conditionally
         cons.append(z3.And(d <= _pow2_q(k0 - 54), -d <= _pow2_q(k0 - 54), r <= _pow2_q(k0), -r <= _pow2_q(k0)))
-        for k in range(k0 - 1, max(k0 - 4, -1021), -1):
+        for k in range(k0 - 1, max(k0 - 25, -1021), -1):
             cons.append(z3.Implies(ae <= _pow2_q(k), z3.And(d <= _pow2_q(k - 54), -d <= _pow2_q(k - 54))))
         set_bound(interp, r, Fraction(2) ** k0)
     else:
